@@ -104,9 +104,10 @@ package tagstree
 //@     invariant id % 16 == 0 && id <= uint32(len(ttr.metadataBuf))
 //@     decreases len(ttr.metadataBuf) - int(id)
 //@   loop 2:
-//@     invariant treeOffset <= uint32(len(tagTreeBuf))
+//@     invariant treeOffset <= uint32(len(tagTreeBuf)) && len(tagTreeBuf) <= 4294967295
+//@     decreases len(tagTreeBuf) - int(treeOffset)
 //@   loop 3:
-//@     invariant i <= tsidCount && tsidCount <= 65535 && uint64(treeOffset) + uint64(tsidCount - i) * 8 <= uint64(len(tagTreeBuf))
+//@     invariant i <= tsidCount && tsidCount <= 65535 && uint64(treeOffset) + uint64(tsidCount - i) * 8 <= uint64(len(tagTreeBuf)) && len(tagTreeBuf) - int(treeOffset) < measure(2)
 //@     decreases int(tsidCount) - int(i)
 //@ end
 //@ func (*TagTreeReader).getValueIteratorForMetric
@@ -125,8 +126,9 @@ package tagstree
 //@   ensures [cursor-stays-inside-the-buffer] tvi.treeOffset <= uint32(len(tvi.tagTreeBuf))
 //@   loop 1:
 //@     invariant tvi.treeOffset <= uint32(len(tvi.tagTreeBuf))
+//@     decreases len(tvi.tagTreeBuf) - int(tvi.treeOffset)
 //@   loop 2:
-//@     invariant i <= tsidCount && tsidCount <= 65535 && len(matchingTSIDs) == int(tsidCount) && uint64(tvi.treeOffset) + uint64(tsidCount - i) * 8 <= uint64(len(tvi.tagTreeBuf))
+//@     invariant i <= tsidCount && tsidCount <= 65535 && len(matchingTSIDs) == int(tsidCount) && uint64(tvi.treeOffset) + uint64(tsidCount - i) * 8 <= uint64(len(tvi.tagTreeBuf)) && len(tvi.tagTreeBuf) - int(tvi.treeOffset) < measure(1)
 //@     decreases int(tsidCount) - int(i)
 //@ end
 //@ func (*TagValueIterator).NextTagValue
